@@ -45,33 +45,40 @@ class Conv:
     def backend(self):
         return ";".join("%s=%s" % (k, "|".join(self.q[k])) for k in ["NS", "MAIL", "RCPT", "DATA", "AUTH", "SASL", "HS"])
 
+    def starttls(self, injected=b""):
+        """a STARTTLS that is meant to succeed: what follows is sent inside TLS"""
+        self.add(b"STARTTLS\r\n" + injected, HS="1")
+        if self.tls_at is None:
+            self.tls_at = len(self.lines)
+
     def case(self, seg="line", rng=None, end="eof", cut=None):
         plain = self.lines if self.tls_at is None else self.lines[:self.tls_at]
         tls = [] if self.tls_at is None else self.lines[self.tls_at:]
         if cut is not None:
             data = b"".join(plain)[:cut]
             plain, tls = [data] if data else [], []
-        def segs(parts):
+        def segs(parts, mode):
             data = b"".join(parts)
             if not data:
                 return []
-            if seg == "one":
-                out = [data]
-            elif seg == "line":
+            if mode == "one":
+                out = [data[i:i + 4000] for i in range(0, len(data), 4000)]
+            elif mode == "line":
                 out = [p for p in parts if p]
-            elif seg == "byte":
+            elif mode == "byte":
                 out = [data[i:i + 1] for i in range(len(data))]
             else:
                 out, i = [], 0
                 while i < len(data):
                     k = rng.choice([1, 2, 3, 5, 8, 13, 21, 50, 200, 1000])
                     out.append(data[i:i + k]); i += k
-            # bufio never asks for more than 4096 octets; longer segments are simply split by it
             return [hx(s) for s in out]
-        items = segs(plain)
-        if self.tls_at is not None and cut is None:
-            items = segs(plain) if seg != "one" else [hx(b"".join(plain))]
-            items = items + ["TLS"] + segs(tls)
+        if self.tls_at is None or cut is not None:
+            items = segs(plain, seg)
+        else:
+            # the STARTTLS line (with anything injected behind it) must be one segment, fully
+            # buffered when the handshake starts; records inside TLS are at most one per line
+            items = segs(plain[:-1], seg) + [hx(plain[-1])] + ["TLS"] + segs(tls, "line" if seg == "byte" else seg)
         return "\t".join(["conv", cfg_str(self.cfg), self.backend(), ",".join(items) + ";" + end])
 
 
@@ -188,8 +195,13 @@ AUTH = [
     ("AUTH-bad-resp", lambda c, rng: (c.add(b"AUTH LOGIN\r\n", AUTH="ok", SASL=["-!0!ok"]), c.add(b"!!!!\r\n"))),
 ]
 
+TLSL = [
+    ("STARTTLS-ok", lambda c, rng: c.starttls()),
+    ("STARTTLS-inject", lambda c, rng: c.starttls(b"MAIL FROM:<injected@x>\r\nRCPT TO:<inj")),
+]
+
 ALPHABET = GREET + MAIL + RCPT + DATA + BDAT + MISC + AUTH
-BY_NAME = dict(ALPHABET)
+BY_NAME = dict(ALPHABET + TLSL)
 
 PREFIXES = {
     "fresh": [],
@@ -210,10 +222,23 @@ PREFIXES = {
 def build(cfg, names, rng):
     c = Conv(cfg)
     for n in names:
+        if n in ("starttls", "long-s-starttls") and c.cfg.get("tls") == "avail" and c.tls_at is None:
+            # with TLS available the first STARTTLS line is where the peer upgrades, however it is spelled
+            line = b"STARTTLS\r\n" if n == "starttls" else "ſtarttls\r\n".encode()
+            c.add(line, HS="1")
+            c.tls_at = len(c.lines)
+            continue
         BY_NAME[n](c, rng)
     c.names = list(names)
     return c
 
+
+TLS_CONFIGS = [
+    dict(tls="avail", authsess=1, mechs=hx(b"PLAIN"), reqtls=1, maxrcpt=2),
+    dict(tls="avail", insecure=1, authsess=1, mechs=hx(b"PLAIN") + ":" + hx(b"X"), lmtp=1, lmtpsess=1),
+    dict(tls="implicit", authsess=1, mechs=hx(b"PLAIN"), reqtls=1, dsn=1),
+    dict(tls="avail", authsess=0, maxline=100),
+]
 
 CONFIGS = [
     dict(),
@@ -231,9 +256,13 @@ def random_walk(cfg, rng, n):
     names = []
     greeted = mail = False
     nr = 0
+    tls_left = 1 if cfg.get("tls") == "avail" else 0
     for _ in range(n):
         r = rng.random()
-        if not greeted and r < 0.6:
+        if tls_left and rng.random() < 0.12:
+            x = rng.choice(["STARTTLS-ok", "STARTTLS-inject"]); tls_left = 0
+            greeted = mail = False; nr = 0
+        elif not greeted and r < 0.6:
             x = "LHLO" if lmtp else rng.choice(["EHLO", "EHLO", "HELO"])
             greeted = True
         elif greeted and not mail and r < 0.5:
